@@ -46,6 +46,7 @@ except ImportError as _import_error:
         raise _local_import_error
 
 
+from spyne.model.complex import ComplexModelBase
 from spyne.model.primitive import Double
 from spyne.model.primitive import Boolean
 from spyne.model.primitive import Decimal
@@ -99,6 +100,11 @@ def get_object_as_doc(o, cls=None, ignore_wrappers=True, complex_as=dict,
     retval = protocol_inst._object_to_doc(cls, o)
 
     if not ignore_wrappers:
+        if issubclass(cls, ComplexModelBase) \
+                                        and protocol_inst.complex_as is dict:
+            # _object_to_doc has written the wrapper itself
+            return retval
+
         return {cls.get_type_name(): retval}
 
     return retval
